@@ -99,12 +99,16 @@ Proof.
   intros H. inversion H as [|? ? ? pos' ? Hz Hg Hc Hp]; subst. inversion Hp. unfold clen in *. cbn [length] in *. lia.
 Qed.
 
+(* T1 tie: neither parent() nor split_first() touches the flag *)
+Lemma parent_flag_kept : parent_keeps_compressed_flag = true /\ split_first_keeps_compressed_flag = true /\
+  suffix_iter_is_parent = true.
+Proof. repeat split; reflexivity. Qed.
+
 (* any number of parent() steps (= iter_suffixes) on any parsed name *)
 Theorem parsed_suffix_denotes m pos lim p : parse_ref m pos lim = Ok p -> lim <= mlen m -> wf_bytes m ->
-  parent_keeps_compressed_flag = true ->
   forall k, exists n q, parent_n k m p = Ok q /\ valid_abs n /\ denotes (NParsed m q) (n ++ [[]]).
 Proof.
-  intros H Hl Hw Hk k.
+  intros H Hl Hw k. pose proof (proj1 parent_flag_kept) as Hk.
   destruct (parsed_inv m pos lim p H Hl Hw) as [n [Vn [_ [Hpl Hf]]]].
   clear H. revert p n Vn Hpl Hf. induction k as [|k IH]; intros p n Vn Hpl Hf.
   - exists n, p. split; [reflexivity|]. split; [exact Vn|]. apply denotes_parsed; assumption.
@@ -121,14 +125,14 @@ Qed.
 
 (* hence every suffix compares, orders and hashes like the flat suffix *)
 Theorem parsed_suffix_ops m pos lim p k rb b : parse_ref m pos lim = Ok p -> lim <= mlen m -> wf_bytes m ->
-  parent_keeps_compressed_flag = true -> valid_abs b -> denotes rb (b ++ [[]]) ->
+  valid_abs b -> denotes rb (b ++ [[]]) ->
   exists n q, parent_n k m p = Ok q /\ valid_abs n /\
     m_name_eq (NParsed m q) rb = Ok (name_eqb n b) /\ m_name_cmp (NParsed m q) rb = Ok (name_cmp n b) /\
     m_composed_cmp (NParsed m q) rb = Ok (lex_cmp (wire_abs n) (wire_abs b)) /\
     m_lc_composed_cmp (NParsed m q) rb = Ok (lex_cmp (wire_abs (canon n)) (wire_abs (canon b))) /\
     m_name_hash (NParsed m q) = Ok (name_hash_feed n).
 Proof.
-  intros H Hl Hw Hk Vb Db. destruct (parsed_suffix_denotes m pos lim p H Hl Hw Hk k) as [n [q [Hq [Vn Dq]]]].
+  intros H Hl Hw Vb Db. destruct (parsed_suffix_denotes m pos lim p H Hl Hw k) as [n [q [Hq [Vn Dq]]]].
   exists n, q. split; [exact Hq|]. split; [exact Vn|]. repeat split.
   - apply name_eq_repr; assumption.
   - apply name_cmp_repr; assumption.
